@@ -64,6 +64,17 @@ CHECKS = {
                      "repair() restores every recoverable job, check() afterwards matches the classification, and no document or data file changes.",
                 note="Trusted: MemFS (validated against tmpfs on every run; counterexamples replayed on the real FS); the independent damage classification (refs.canon_id). Outside: multi-byte damage, swapped directories.",
                 ref="DESIGN.md §4 C09"),
+    "C02": dict(tech="SMT-backed symbolic execution (CrossHair+z3) of open_job / init / reopen / id-prefix resolution on an in-memory POSIX model",
+                text="Bounded proof: for 8 typed state point templates, 5 states of a pre-existing state point file, caller-side mutations and cache presence: open_job performs no mutating file-system step, init() persists a type-exact state point under the canonical id, "
+                     "is idempotent, never rewrites a valid (or corrupt) existing file, and a fresh session finds the job by iteration / membership / len / full id; id-prefix resolution over 2-3 symbolic directory names returns the unique match, LookupError on ambiguity, KeyError otherwise, "
+                     "independent of which ids the session already knows.",
+                note="Trusted: MemFS (validated against tmpfs on every run; counterexamples replayed on the real FS). Outside: prefixes over real md5 ids at every length.",
+                ref="DESIGN.md §4 C02"),
+    "C05": dict(tech="SMT-backed symbolic execution (CrossHair+z3) over operation sequences on the real Job.document / Project.document / signac.buffered stack on an in-memory POSIX model, against a plain-dict model and an unbuffered twin run",
+                text="Bounded proof: for every sequence of 2 (quick) / 3 (thorough) operations from 14 opcodes x 4 arguments on a job or project document, through one or two alternating handles, unbuffered / fully buffered / partly buffered / nested with capacity 0: "
+                     "value through the writing handle, through the other handle (outside blocks) and the JSON file equal the plain-dict model after every operation, and the buffered run leaves the same documents as the unbuffered run. Two open known findings (dependency behaviour).",
+                note="Trusted: MemFS incl. stat/mtime (validated against tmpfs on every run). synced_collections is exercised as is. Outside: concurrent external modification, capacities other than 0/default, H5.",
+                ref="DESIGN.md §4 C05"),
 }
 NOT_YET = {}
 
